@@ -26,13 +26,24 @@ func (m *collection) NotifyMerger(kind string, synchronous bool) error {
 		pongCh = make(chan struct{})
 	}
 
-	m.pingMergerCh <- ping{
+	// A closed collection has no merger any more to receive the ping
+	// or to answer it, so never wait for that unconditionally.
+	select {
+	case m.pingMergerCh <- ping{
 		kind:   kind,
 		pongCh: pongCh,
+	}:
+	case <-m.stopCh:
+		return ErrClosed
 	}
 
 	if pongCh != nil {
-		<-pongCh
+		select {
+		case <-pongCh:
+		case <-m.doneMergerCh:
+			// The merger stopped before it got to our ping.
+			return ErrClosed
+		}
 	}
 
 	atomic.AddUint64(&m.stats.TotNotifyMergerEnd, 1)
